@@ -14,12 +14,13 @@ PROP = {
   'the coordinator commits only after both proxies report SwitchCommitted',
   'TRUSTED table canDeleteNames (Redis documentation): which supported commands can remove their first key'],
  'gaps': [
-  'C03_register (full statement: RegisterStep for every step of every execution, no hypotheses) is FALSE for the '
-  'code as it is: proved negations C03_register_full_false_pull_delete (F03a) and '
-  'C03_register_full_false_commit_race (F03b). C03_register_partial carries the hypotheses GoodStep = (1) no '
-  'deleting command outside requires_blocking_migration is issued (F03a), (2) the destination installs the committed '
-  'metadata only while the key-lock holder of the key owns no DUMP it may still RESTORE (F03b); everything else (slow path, all connection counts, both '
-  'redirect modes, any number of concurrent ops, spurious slot-mutex contention) is covered',
+  'C03_register (full statement: RegisterStep for every step of every execution, no hypothesis) is FALSE for the '
+  'code as it is: proved negation C03_register_full_false_commit_race (F03b, not repaired: needs a design decision). '
+  'C03_register_partial carries the single hypothesis GoodStep = the destination installs the committed metadata only '
+  'while the key-lock holder of the key owns no DUMP it may still RESTORE; everything else (slow path, all connection '
+  'counts, both redirect modes, any number of concurrent ops, spurious slot-mutex contention) is covered. The former '
+  'hypothesis about deleting commands outside requires_blocking_migration (F03a) is discharged by '
+  'classification_sound / model_classification since fix ddfb301',
   'per-key model: cross-key effects enter only as spurious SlotMutex contention and lock-step scan batches',
   'liveness (every op eventually answers, the scan terminates) is not stated',
   'thorough tier: random + adversarial gate schedules; the exhaustive DFS for 1 key / 3 ops planned in DESIGN was not built',
@@ -38,14 +39,15 @@ CHECK = {
          'commit, both redirect modes, unordered in-flight commands = every backend_conn_num, unboundedly many '
          'concurrent client ops) that every step refines an atomic register (linearization point = execution of the '
          'client command; nothing else changes dst<|>src) and that at quiescence after both commits the source is '
-         'empty and the destination holds the register content - UNDER two hypotheses that exclude exactly the two '
-         'defects found: F03a (SDIFFSTORE/SINTERSTORE/ZINTERSTORE/ZUNIONSTORE, typed Others, delete their key through '
-         'the pull path; the scan resurrects it) and F03b (a DEL acknowledged after the destination commit is '
-         'overtaken by the RESTORE of a pull that started before it). Both are proved as negations of the full '
-         'statement in the model and reproduced on the real proxies with the gate scheduler (replays in corpus/C03). '
-         'The model is tied to the code by trace inclusion: every backend command, proxy-to-proxy command, client '
-         'reply and task-state change of gate-scheduled runs of two real SharedForwardHandlers must be a step of the '
-         'model (tau-closed state sets per key).',
+         'empty and the destination holds the register content - UNDER one hypothesis that excludes exactly the '
+         'remaining defect F03b (a DEL acknowledged after the destination commit is overtaken by the RESTORE of a pull '
+         'that started before it; proved as negation of the full statement in the model and reproduced on the real '
+         'proxies with the gate scheduler, replay corpus/C03/migration.f03b.ops). classification_sound (every command '
+         'that can delete its key requires blocking migration, over the generated table) holds in full since fix '
+         'ddfb301 of F03a (the *STORE family), which removed the second hypothesis; corpus/C03/migration.f03a.ops is '
+         'the regression case. The model is tied to the code by trace inclusion: every backend command, '
+         'proxy-to-proxy command, client reply and task-state change of gate-scheduled runs of two real '
+         'SharedForwardHandlers must be a step of the model (tau-closed state sets per key).',
  'note': 'Trusted: Lean kernel; model transliteration (checked by trace inclusion every run); Redis semantics of '
          'the fake node; canDeleteNames table; C11 barrier contract; SCAN guarantee.',
 }
